@@ -226,7 +226,7 @@ def _case(draw):
         if kind in ("mark", "kern", "markchain"):
             o.pop("featureWriters", None)
         ops.append({"fn": fn, "opts": o})
-    config = draw(st.sampled_from(["other-lib", "disk-same", "disk-other-writer", "disk-other-reader", "inplace", "inplace"]))
+    config = draw(st.sampled_from(["other-lib", "disk-same", "disk-other-writer", "disk-other-reader", "inplace", "inplace", "inplace-twice"]))
     if src.pop("_contextual", False):
         config = draw(st.sampled_from(["inplace", "inplace", "disk-same", "other-lib"]))
         ops[0]["opts"].pop("featureWriters", None)
@@ -277,9 +277,21 @@ def run_case(case, ctx):
     ctx.label("hash-seeds-compared")
     # (2) other library, disk round trips; (3) inplace
     op0 = case["ops"][0]
+    if case.get("config") == "inplace-twice" and op0["fn"] in ("compileTTF", "compileOTF") and not op0["opts"] and not src.get("lib", {}).get("com.github.googlei18n.ufo2ft.filters") and not src.get("lib", {}).get("public.skipExportGlyphs"):
+        # harness-defined extension (only for the plain default call, where the pre-processing is idempotent by design: curve types are remembered)
+        # the same in-place call twice on one private copy: both results equal the reference
+        fonts_, ds_ = build_source(source, module)
+        for k in (1, 2):
+            try:
+                got = call(fonts_, ds_, op0, inplace=True)
+            except Exception as e:
+                got = "exc:" + type(e).__name__
+            if got != ref[0]:
+                raise Violation("output of a repeated in-place compile differs from the first compile", op=op0, repetition=k, reference=ref[0], got=got)
+        ctx.count("configuration-comparisons")
     configs = {"other-lib": ("mem", other), "disk-same": ("disk:" + module, module), "disk-other-writer": ("disk:" + other, module),
                "disk-other-reader": ("disk:" + module, other), "inplace": ("inplace", module)}
-    chosen = [configs[case["config"]]] if case.get("config") else list(configs.values())
+    chosen = [configs[case["config"]]] if case.get("config") in configs else ([] if case.get("config") else list(configs.values()))
     for mode, mod in chosen:
         if mode == "inplace" and kf2_class(src, op0) and not case.get("no_exclusions"):
             ctx.label("known-finding-class(KF-C08-2)")
